@@ -4,10 +4,14 @@
    [map_reach f try xs] = xs under Try, = the elements up to and including the first failing one under Lift
    ([upto_err]); [ok_vals] / [err_vals] keep input order.  Output 0 carries values, output 1 errors.
    "_prefix" in every reachable state (any schedule, cancelled or not); "_complete" at the end of every
-   complete uncancelled run; "_never_blocks": the plain `exx <- err` of the fail-fast mode always finds room. *)
+   complete uncancelled run; "_never_blocks": the plain `exx <- err` of the fail-fast mode always finds room.
+   "provided the error channel is read (e.g. via StdErr)": C07_stderr_* say that pipe.StdErr's goroutine IS such a
+   reader - for any capacity, schedule and with or without cancel (it takes no context): it reads in order,
+   whenever it cannot move the channel is empty and (if open) accepts the next error at once, and it returns
+   exactly when the channel is closed and empty, having read - and logged the non-nil ones of - everything. *)
 From Coq Require Import List ZArith.
 From Golem Require Import Base.Lists Pipe.Pool Pipe.Stages Pipe.PoolSteps Pipe.PoolLive Pipe.PoolSeq
-     Pipe.PoolStages Pipe.PoolErr Pipe.PoolGen Pipe.PoolExamples.
+     Pipe.PoolStages Pipe.PoolErr Pipe.PoolGen Pipe.PoolStdErr Pipe.PoolExamples.
 Import ListNotations.
 Open Scope Z_scope.
 
@@ -89,6 +93,28 @@ Theorem C07_emit_prefix : forall (freq : N) (f : Z -> res) (try : bool) (ocaps :
             (try = false -> existsb (is_err f) (zrange 0 (n - 1)) = false).
 Proof. exact emit_prefix. Qed.
 Print Assumptions C07_emit_prefix.
+
+(* pipe.StdErr (the reader of the error channel) *)
+Theorem C07_stderr_reads_in_order : forall (icaps ocaps : list nat) (s : state),
+  reachable (stderr_cfg icaps ocaps) s ->
+  prefix (wtaken (ws s 0)) (sent s 0) /\ prefix (logged (wtaken (ws s 0))) (logged (sent s 0)).
+Proof. exact stderr_reads_in_order. Qed.
+Print Assumptions C07_stderr_reads_in_order.
+
+Theorem C07_stderr_never_blocks : forall (icaps ocaps : list nat) (s : state),
+  let c := stderr_cfg icaps ocaps in
+  reachable c s -> quiescent c s ->
+  cbuf (ins s 0) = [] /\
+  (cclosed (ins s 0) = false -> forall e, step c s (ESent 0 e) <> None) /\
+  (cclosed (ins s 0) = true -> wc (ws s 0) = WDone /\ wtaken (ws s 0) = sent s 0).
+Proof. exact stderr_never_blocks. Qed.
+Print Assumptions C07_stderr_never_blocks.
+
+Theorem C07_stderr_returns_only_at_close : forall (icaps ocaps : list nat) (s : state),
+  reachable (stderr_cfg icaps ocaps) s -> wc (ws s 0) = WDone ->
+  wtaken (ws s 0) = sent s 0 /\ cbuf (ins s 0) = [] /\ cclosed (ins s 0) = true.
+Proof. exact stderr_done_all. Qed.
+Print Assumptions C07_stderr_returns_only_at_close.
 
 (* non-vacuity of the failure patterns: a function failing on 7 *)
 Theorem C07_example :
